@@ -167,6 +167,11 @@ func runC14(c *eng.Ctx, tier string) {
 		if !recvKV {
 			continue
 		}
+		// (an unexported helper of DB hands its result to DB's own methods
+		// only; what those return is judged at their own signatures)
+		if eng.IsNamed(f.Signature.Recv().Type(), "db", "DB") && f.Object() != nil && !f.Object().Exported() {
+			continue
+		}
 		for i := 0; i < res.Len(); i++ {
 			t := res.At(i).Type()
 			ok := !mentionsShared(t, 0)
@@ -265,15 +270,24 @@ func runC14(c *eng.Ctx, tier string) {
 			if !isF || !eng.IsNamed(fr.Owner, "server", "Server") {
 				return
 			}
-			for _, r := range *fa.Referrers() {
-				switch u := r.(type) {
-				case *ssa.UnOp, *ssa.DebugRef:
-				case *ssa.Store:
-					// (judged above)
-				default:
-					c.Bad("R-C14-4", f, r.Pos(), "Server."+fr.Name+" used in place by "+eng.InstrStr(u), "request handling keeps no mutable state in the Server besides the database (no cache, pool or table that concurrent requests update next to it)", "field of type "+eng.TypeShort(eng.Deref(fa.Type()))+" is operated on through its address in "+eng.FName(f))
+			var uses func(addr ssa.Value, depth int)
+			uses = func(addr ssa.Value, depth int) {
+				for _, r := range *addr.Referrers() {
+					switch u := r.(type) {
+					case *ssa.UnOp, *ssa.DebugRef:
+					case *ssa.Store:
+						// (judged above)
+					case *ssa.FieldAddr:
+						// a field of an embedded group of fields: same question one level down
+						if depth < 3 {
+							uses(u, depth+1)
+						}
+					default:
+						c.Bad("R-C14-4", f, r.Pos(), "Server."+fr.Name+" used in place by "+eng.InstrStr(r), "request handling keeps no mutable state in the Server besides the database (no cache, pool or table that concurrent requests update next to it)", "field of type "+eng.TypeShort(eng.Deref(fa.Type()))+" is operated on through its address in "+eng.FName(f))
+					}
 				}
 			}
+			uses(fa, 0)
 		})
 		for _, m := range eng.MapOps(f) {
 			if !m.IsWrite() || !m.SrcOK || !eng.IsNamed(m.Src.Owner, "server", "Server") {
